@@ -2,7 +2,10 @@
 
 Mode: lattice sweep (complete products, nothing sampled). Sub-checks ("sub" of a case):
 
- chain1d   one case per (1-d model spec of mc.alphabets.model_specs, Levy and exponential  x  declared representation in
+ chain1d   one case per (1-d model spec of mc.alphabets.model_specs, Levy and exponential, plus CGMY y in {1, 1.2, 1.5, 0.5}
+           with the Brownian coefficient 0.2 written into the triplet after construction - sigma > 0 together with
+           infinite-variation jumps, which no built-in model has; see _make_model for what is asserted on the exponential
+           versions  x  declared representation in
            {as constructed, ZERO, CENTER, ONEONE, TILDE}, set with model.levy_triplet.set_representation(R) BEFORE the chain
            is built  x  grid spec of mc.alphabets.grid_specs  x  0..k refinements).  The real MarkovChainProcess is built
            (once per sampling method of the case), initialisation(product) is called, and these are observed:
@@ -10,9 +13,10 @@ Mode: lattice sweep (complete products, nothing sampled). Sub-checks ("sub" of a
            reference cells re-derived from the axis with the grid's middle(), (s) the law of the sampler actually built,
            recovered exactly by bisection of its single-uniform entry point (checks.c02_samplers.recover_partition) times
            intensity_of_jumps; equivalent_diffusion_coefficient; the caller's model before and after.
- copula    one case per (pair of margins, Levy and exponential, copula, representation applied to every margin that admits
-           it, 2-d grid, refinements): MarkovChainLevyCopula, initialisation(product), _process_drift per margin, and
-           _path_simulation.diffusion_matrix.
+ copula    one case per (pair of margins in both orders of finite / infinite variation, or triple with the infinite-variation
+           margin first, in the middle or last; Levy and exponential, copula, representation applied to every margin that
+           admits it, 2-d / 3-d grid, refinements): MarkovChainLevyCopula, initialisation(product), _process_drift per margin,
+           and _path_simulation.diffusion_matrix.
 
 Oracles (T = [axis[0], axis[-1]] the truncation of the grid, (a, sigma, nu) the caller's triplet in its declared representation
 R with cut-off c_R of mc.oracle.cutoff, all integrals by quadrature of the model's OWN density nu.__call__):
@@ -47,7 +51,8 @@ Outside the alphabet (statement silent or quantity does not exist), never an ala
  * copula chains: the jump part weighted by the JOINT rates differs from the marginal sum by the mass of jumps whose OTHER
    coordinate leaves the box (a truncation effect: which process "the truncated process" is for a margin of a box-truncated
    copula model is not fixed by the statement); it is measured and written to the evidence samples ("leak"), not judged.
-   Dimension 3 (same code path per margin, diffusion matrix > 200 s).
+   In dimension 3 only the drift (and the diffusion matrix of finite-variation triples) is observed: the small-jump
+   covariance of an infinite-variation triple takes > 200 s.
  * infinite-variation copula chains are constructed with the pathos pool of MCLevyCopulaSimulation replaced by a stand-in:
    zero results where only the drift is observed, an in-process synchronous pool (the real vol_adjustment_ij) in the
    "diffusion" cases (1 quick, 4 thorough).
@@ -132,6 +137,12 @@ def cases(tier):
     methods = METHODS_THOROUGH if thorough else METHODS_QUICK
     ks = (0, 1, 2)
     specs = A.model_specs(tier, families=("hem", "merton", "vg", "cgmy"))
+    # sigma > 0 together with infinite-variation jumps (and, for contrast, with finite-variation infinite-activity jumps):
+    # a legal triplet that no built-in model has; both tiers
+    for y in (1.0, 1.2, 1.5, 0.5):
+        for exp in (False, True):
+            ms = {"family": "cgmy", "exp": exp, "params": {"c": 1.0, "g": 15.0, "m": 20.0, "y": y}, "triplet_sigma": 0.2}
+            specs.append(dict(ms, r=0.02, d=0.0, spot=100.0) if exp else ms)
     grids = A.grid_specs(tier, dimension=1)
     # simplest first: as constructed on un-refined grids
     for k in ks:
@@ -143,8 +154,8 @@ def cases(tier):
                     if k == 2 and not thorough and g["kind"] in ("uniform", "probability"):
                         continue  # quick: the second refinement only on the small grids
                     out.append({"sub": "chain1d", "model": ms, "rep": rep, "grid": dict(g, refine=k), "methods": methods})
-    # copula chains, d = 2
-    pairs = [("hem", "vg"), ("cgmy05", "cgmy12")]
+    # copula chains, d = 2 (both orders of a finite- and an infinite-variation margin) and d = 3 (drift only)
+    pairs = [("hem", "vg"), ("cgmy05", "cgmy12"), ("cgmy12", "vg"), ("cgmy12", "hem")]
     cops = [{"kind": "clayton", "theta": 0.7, "eta": 0.3}, {"kind": "independent"}]
     if thorough:
         pairs += [("hem", "hem2"), ("vg", "cgmy12"), ("merton", "cgmy05"), ("cgmy12", "cgmy12"), ("cgmy12", "hem2")]
@@ -159,6 +170,16 @@ def cases(tier):
                                 continue
                             out.append({"sub": "copula", "model": {"margins": list(pair), "copula": cop, "exp": exp}, "rep": rep,
                                         "grid": dict(g, refine=k), "diffusion": False})
+    triples = [("hem", "cgmy12", "vg"), ("cgmy12", "hem", "vg")] + ([("hem", "vg", "cgmy12"), ("hem", "vg", "cgmy05")] if thorough else [])
+    grids3 = [{"kind": "fixed", "h": 0.1, "n": 3}, {"kind": "geometric-bounds", "h": 0.1, "bounds": [-0.7, 0.4], "n_side": 3},
+              {"kind": "credit", "h": 0.1, "a_frac": [0.4, 0.5, 0.6], "symmetric": False}]
+    for k in ((0, 1) if thorough else (0,)):
+        for rep in REPS:
+            for exp in (False, True):
+                for tr in triples:
+                    for g in grids3:
+                        out.append({"sub": "copula", "model": {"margins": list(tr), "copula": cops[0], "exp": exp}, "rep": rep,
+                                    "grid": dict(g, refine=k), "diffusion": False})
     # the real small-jump covariance of infinite-variation copula chains (slow: nquad of the library + reference)
     diff = [(("cgmy05", "cgmy12"), {"kind": "clayton", "theta": 0.7, "eta": 0.3}, {"kind": "fixed", "h": 0.1, "n": 3}, False)]
     if thorough:
@@ -186,7 +207,27 @@ def _mclass(spec):
             s += ":g=m"
     else:
         s = fam + (":alt" if p else ":default")
+    if spec.get("triplet_sigma") is not None:
+        s += f":sigma={spec['triplet_sigma']:g}"
     return ("exp-" if spec.get("exp") else "") + s
+
+
+def _make_model(spec):
+    """mc.alphabets.make_model, plus an optional Brownian coefficient written into the triplet after construction
+    (`model.levy_triplet.sigma = s`: the only way to get sigma > 0 together with infinite-variation jumps - no built-in
+    model has both).  For the exponential classes the triplet is shared with the inner Levy model, and omega (hence
+    model.drift()) was fixed at construction without the -sigma^2/2 of the new coefficient: the discounted spot is then no
+    martingale, which this property does not speak about - the mean oracle takes model.drift() as it is, and sigma does not
+    enter the mean of the simulated (log) process; the variance clauses read sigma from the triplet, as the chain does."""
+    model = A.make_model({k: v for k, v in spec.items() if k != "triplet_sigma"})
+    if spec.get("triplet_sigma") is not None:
+        model.levy_triplet.sigma = float(spec["triplet_sigma"])
+    return model
+
+
+def _label(spec):
+    s = A.model_label(spec)
+    return s + (f"[triplet sigma={spec['triplet_sigma']:g}]" if spec.get("triplet_sigma") is not None else "")
 
 
 def _cop_label(c):
@@ -404,8 +445,8 @@ def _chain1d(sh, case):
 
     spec, gspec, rep_req = case["model"], case["grid"], case["rep"]
     mc, gc = _mclass(spec), _gclass(gspec)
-    label = f"{A.model_label(spec)} declared {rep_req or 'as constructed'} on {gspec}"
-    model = A.make_model(spec)
+    label = f"{_label(spec)} declared {rep_req or 'as constructed'} on {gspec}"
+    model = _make_model(spec)
     if bool(model.levy_triplet.nu.jump_of_finite_variation()) != _spec_fv(spec):
         sh.count("outside-alphabet:finite-variation-flag-differs-from-spec")
         return
@@ -574,7 +615,7 @@ def _chain1d(sh, case):
 
     sh.outcome((round(pd, 9) if math.isfinite(pd) else repr(pd), round(want, 9), round(sig_eq, 9) if math.isfinite(sig_eq) else "nan"))
     if gspec["kind"] == "fixed" and gspec.get("n") == 5:
-        sh.sample({"sub": "chain1d", "model": A.model_label(spec), "declared": rep, "requested": rep_req, "grid": gspec,
+        sh.sample({"sub": "chain1d", "model": _label(spec), "declared": rep, "requested": rep_req, "grid": gspec,
                    "points": len(axis), "process_drift": pd, "sum_x_rate": sum(axis[k] * r for k, r in rates_m.items()),
                    "expected_mean": want, "a": a, "model_drift": drift, "int_T_x(1-c)nu": jump_mean,
                    "sigma_eq^2-sigma^2": added, "int_central_x^2_nu": q_c})
@@ -675,6 +716,8 @@ def _copula(sh, case):
     gc = _gclass(gspec)
     model = A.make_copula_model(spec)
     margins = list(model.models)
+    dim = len(margins)
+    sh.cls(f"copula-dimension:{dim}")
     applied = []
     for k, mk in enumerate(margins):
         fvk = bool(mk.levy_triplet.nu.jump_of_finite_variation())
@@ -690,7 +733,7 @@ def _copula(sh, case):
     sh.cls("copula-grid:" + gc)
     sh.cls("copula-process-representation:" + ("log" if exp else "identity"))
     try:
-        grid = A.make_grid(gspec, model, 2)
+        grid = A.make_grid(gspec, model, dim)
     except A.OutsideAlphabet:
         sh.count("outside-alphabet:grid")
         return
@@ -762,7 +805,7 @@ def _copula(sh, case):
                  "jump_mean": jump_mean, "truncation": [lo, hi], "quad_err": err})
     # ---- measured, not judged: the jump part weighted by the joint rates (leak through the other coordinate's truncation)
     leak = None
-    if len(axes[0]) * len(axes[1]) <= 400:
+    if dim == 2 and len(axes[0]) * len(axes[1]) <= 400:
         from checks import c02_samplers as C2
 
         law = C2.target_law(proc, grid, 2)
@@ -792,7 +835,7 @@ def _copula(sh, case):
             if not np.allclose(var, sig2, rtol=1e-12, atol=1e-300 + 1e-14 * float(np.max(sig2))):
                 sh.violation(f"C04:copula-variance:MCLevyCopulaSimulation.diffusion_matrix:variance-added-for-a-finite-variation-model:{pair}",
                              f"{label}: D D^T = {var.tolist()}, diag(sigma^2) = {sig2.tolist()}", None)
-        elif real_pool:
+        elif real_pool and dim == 2:
             h2 = 0.5 * float(grid.h)
             nus = [m.levy_triplet.nu for m in margins]
             cop = model.copula
